@@ -23,12 +23,14 @@ RUNS = {"hist": 1.0, "oom": 0.2, "fs": 0.03, "alloc": 1.0, "illdim": 0.7}  # rel
 def main():
     a = sys.argv[1:]
     runs = 1400
-    engines = ["hist", "illdim", "oom", "fs", "alloc"]
+    engines = ["hist", "illdim", "oom", "fs", "alloc", "omp"]
     i = 0
     while i < len(a):
         if a[i] == "--runs": runs = int(a[i + 1]); i += 2
         elif a[i] == "--engines": engines = a[i + 1].split(","); i += 2
         else: i += 1
+    omp_engines = [e for e in engines if e == "omp"]
+    engines = [e for e in engines if e != "omp"]
     b = Builder()
     try:
         # the names the engines expect; hist needs a `_p` twin? no: it takes whatever is linked
@@ -47,6 +49,20 @@ def main():
                 procs.append(subprocess.Popen([exe, "worker", "20261002", str(w * per), str(per), "quick", d, "100"] + extra, stdout=subprocess.DEVNULL, stderr=subprocess.DEVNULL))
             for p in procs: p.wait()
             print("engine %s: %d runs done" % (e, per * nw), flush=True)
+        if "omp" in omp_engines:
+            ovs = [Variant("omp", openmp=1, mmc=1, mzdcache=0, flavour="cov", knobs=True), Variant("seq", flavour="cov", knobs=True),
+                   Variant("ompn", sse2=0, openmp=1, mmc=1, mzdcache=0, flavour="cov", knobs=True), Variant("seqn", sse2=0, flavour="cov", knobs=True)]
+            b.build_variants(ovs)
+            exe = b.build_engine("cov_omp", ["gen.c", "eng/engutil.c", "eng/omp.c"], ovs, "cov", core=("heap.c", "die.c", "fs.c", "sched.c"), extra_defs=("M4SIM_COV",))
+            out = os.path.join(b.scratch, "out_omp")
+            procs = []
+            per = (2880 + 15) // 16
+            for w in range(16):
+                d = os.path.join(out, str(w)); os.makedirs(d)
+                procs.append(subprocess.Popen([exe, "worker", "20261002", str(w * per), str(per), "quick", d, "100"], stdout=subprocess.DEVNULL, stderr=subprocess.DEVNULL))
+            for p in procs: p.wait()
+            print("engine omp: %d runs done" % (per * 16), flush=True)
+            vs = vs + ovs
         # gcov per variant
         lines = collections.defaultdict(lambda: collections.defaultdict(int))   # file -> line -> max count over variants
         funcs = collections.defaultdict(int)
